@@ -37,7 +37,9 @@ SHAPE = [(0.0, -10.0), (0.0, 10.0), (1.0, 0.5), (2.0, -1.0), (-1.5, 1.0)]
 QY = [-2.0, -0.5, 0.0, 1.0, 2.5]
 QX = [-3.0, -1.0, 0.0, 0.5, 2.0]
 RADII = [0.4, 0.5, 0.51, 1.0, 1.5, 1.6, 3.0, 5.0, 30.0]
-LL_ANCHORS = {"latlon(50.86,4.7)": (50.86, 4.7), "latlon(-33.3,-70.1)": (-33.3, -70.1), "latlon(59.9,178.5)": (59.9, 178.5)}
+LL_ANCHORS = {"latlon(50.86,4.7)": (50.86, 4.7), "latlon(-33.3,-70.1)": (-33.3, -70.1), "latlon(59.9,178.5)": (59.9, 178.5),
+              "latlon(-54.8,-68.3)x400m": (-54.8, -68.3)}
+LL_UNIT = {"latlon(-54.8,-68.3)x400m": 400.0}
 FRAMES = ["unit", "metres1e7", "degrees"] + list(LL_ANCHORS)
 
 
@@ -54,8 +56,8 @@ def frame(name):
     def f(p):
         if p[0] == 0 and p[1] == 0:
             return a
-        return rg.sph_dest(a, math.degrees(math.atan2(p[1], p[0])), math.hypot(p[0], p[1]) * 20.0)
-    return True, f, 20.0
+        return rg.sph_dest(a, math.degrees(math.atan2(p[1], p[0])), math.hypot(p[0], p[1]) * LL_UNIT.get(name, 20.0))
+    return True, f, LL_UNIT.get(name, 20.0)
 
 
 def edge_sets(tier):
@@ -129,7 +131,10 @@ def run_case(case):
             q = f(q0)
             dn = {k: met.d(q, p) for k, p in nodes.items()}
             de_ = {(a, b): met.p2s(q, nodes[a], nodes[b]) for a, b in es}
-            for r0 in radii:
+            # besides the fixed radii: radii just above an attained node distance (the element is inside by 1e-4 of the radius,
+            # i.e. decimetres at kilometre scale - far outside the rounding band, yet close to the edge of the search box)
+            derived = [] if "radii" in case else sorted({round(d * (1 + 1e-4) / unit, 12) for d in dn.values() if d > 0})[:3]
+            for r0 in list(radii) + derived:
                 r = r0 * unit
                 for bname, mp in mps.items():
                     for form in forms:
